@@ -40,8 +40,9 @@ KV_KEYS = ["wms_title", "WMS_SRS", "k 1", "a", "ows_enable_request", "Wfs_Abstra
            "default_x", "qstring", "oWs_TiTle"]
 CONFIG_KEYS = ["MS_ERRORFILE", "proj_lib", "On_Missing_Data", "CGI_CONTEXT_URL", "MS_ENCRYPTION_KEY", "my_key", "PROJ_LIB"]
 PROJ = [["init=epsg:4326"], ["proj=utm", "zone=15", "datum=NAD83", "no_defs"], ["+proj=longlat +datum=WGS84"],
-        ["proj=lcc", "lat_1=49", "lat_2=77", "units=m"], ["init=epsg:3857", "x"]]
+        ["proj=lcc", "lat_1=49", "lat_2=77", "units=m"], ["init=epsg:3857", "x"], ["'+proj=longlat'", "+no_defs"]]
 REP_VALUES = ["BANDS=1", "a b", "x=y", "CLOSE_CONNECTION=DEFER", "QUALITY=90", "grayscale()", "blur(10)", "NATIVE_FILTER=id=1"]
+SPECIAL_FLOATS = [0.00001, 0.00002, 0.000015, 0.00005, 0.0000001, -0.00001, 1e16, 123456789012345680.0, 2.5e-05, 1e22]
 INCLUDES = ["inc.map", "layers/roads.map", "../x.map", "a-b_c.map"]
 
 
@@ -187,7 +188,7 @@ class Gen:
         if alt.ref == "projection.json" or k == "projection":
             if sh == "enum":
                 return [["proj", ch.choice(["AUTO", "auto", "Auto"])]]
-            return [["proj", [self.string(multiline=False)[0] for _ in range(ch.int(1, 3))] if ch.chance(1, 4) else list(ch.choice(PROJ))]]
+            return [["proj", [self.string(multiline=False)[0] for _ in range(ch.int(1, 3))] if ch.chance(1, 2) else list(ch.choice(PROJ))]]
         if sh == "points":
             if k == "pattern":
                 return [["pairs", "pattern", self.pairs(1, 3, positive=True)]]
@@ -259,6 +260,11 @@ class Gen:
                     return ilo
             else:
                 return ch.int(ilo, ihi)
+        if ch.chance(1, 8):
+            # values whose repr() uses exponent notation (the printer writes floats with str())
+            cands = [x for x in SPECIAL_FLOATS if lo <= x <= hi and not (lo_x and x == lo) and not (hi_x and x == hi)]
+            if cands:
+                return ch.choice(cands)
         k = ch.choice([1, 2, 3, 4])
         m = ch.int(int(ilo * 10 ** k), int(ihi * 10 ** k))
         v = m / 10 ** k
